@@ -222,6 +222,12 @@ def jobs(tier):
     return out
 
 
+
+# heavy shards are split into disjoint parts of their path tree (run in parallel; together exactly the unsplit exploration)
+def slices(job, tier):
+    h, a = job
+    return 3 if h in ('filter_pred', 'unknown', 'after_history') and a[0] * a[1] >= 6 else 1
+
 OPTS = {'quick': {'time_budget': 60}, 'thorough': {'time_budget': 1500}}
 
 META = {
